@@ -15,8 +15,9 @@ static int lowzero_bits (int format, int t)
 		return bits >= tw ? 0 : tw - bits ; }
 }
 
-enum { G_NOISE, G_EXTREME, G_SILENCE, G_RAMP, G_SINE, G_LOWNOISE, G_IMPULSE, G_N } ;
-static const char *gname [] = { "noise", "extremes", "silence", "ramp", "sine", "lownoise", "impulse" } ;
+enum { G_NOISE, G_EXTREME, G_SILENCE, G_RAMP, G_SINE, G_LOWNOISE, G_IMPULSE, G_CHANNELS, G_N } ;
+static int gen_ch = 1 ;	/* channel count for G_CHANNELS: smooth but mutually unrelated channels (sine, constant, slower sine, slow ramp ...) */
+static const char *gname [] = { "noise", "extremes", "silence", "ramp", "sine", "lownoise", "impulse", "unrelated-channels" } ;
 
 static void gen_data (void *buf, int t, long items, int gen, int lz)
 {	long i ;
@@ -30,6 +31,7 @@ static void gen_data (void *buf, int t, long items, int gen, int lz)
 			case G_SINE : iv = (int32_t) (2147483000.0 * sin (i * 0.013)) ; break ;
 			case G_LOWNOISE : iv = ((int32_t) vh_rnd ()) >> 20 << 16 ; break ;
 			case G_IMPULSE : iv = (vh_rint (97) == 0) ? (int32_t) vh_rnd () : 0 ; break ;
+			case G_CHANNELS : { long fr = i / gen_ch ; int c = (int) (i % gen_ch) ; iv = (c % 4 == 0) ? (int32_t) (1.9e9 * sin (fr * 0.013 + c)) : (c % 4 == 1) ? 0x01234500 + c * 0x1100 : (c % 4 == 2) ? (int32_t) (6.0e8 * sin (fr * 0.0071 + 1)) : (int32_t) (fr * 7001 - 1000000) ; } break ;
 			}
 		switch (t)
 		{	case T_SHORT : { int16_t s = (int16_t) (iv >> 16) ; if (lz) s = (int16_t) (s & ~((1 << lz) - 1)) ; ((short *) buf) [i] = s ; } break ;
@@ -73,7 +75,7 @@ static void run_case (int format, int ch, int rate, int t, int lz, int gen, long
 	const char *fn = vh_fname (format) ;
 	void *wbuf = vh_guard_alloc (items * ts, 0), *rbuf ;
 	memset (&m, 0, sizeof (m)) ;
-	gen_data (wbuf, t, items, gen, lz) ;
+	gen_ch = ch ; gen_data (wbuf, t, items, gen, lz) ;
 	s = vh_open_w (&m, format, ch, rate, NULL) ;
 	if (s == NULL)
 	{	vh_viol (vh_key ("C01|open-write-failed|%s", fn), "sf_format_check accepted but open failed: %s", sf_strerror (NULL)) ; free (wbuf) ; return ; }
